@@ -17,6 +17,7 @@ import (
 
 	"github.com/go-i2p/crypto/dsa"
 	"github.com/go-i2p/crypto/ecdsa"
+	"go.step.sm/crypto/x25519"
 )
 
 // Draw is one recorded draw.
@@ -267,3 +268,14 @@ func NowUnix() int64 { return time.Now().Unix() }
 // Context names the case a generated sweep is in (type.method); it becomes part of the fingerprint of a panic
 // found there, so that two methods failing at the same site are two findings.  Natively a no-op.
 func Context(label string) {}
+
+// X25519Key returns an arbitrary X25519 key pair (32-byte private key, 32-byte public key): under the executor
+// the private key is a draw and the public key the ideal function of it; natively the public key is computed.
+func X25519Key() (priv []byte, pub []byte) {
+	priv = Bytes(32)
+	p, err := x25519.PrivateKey(priv).PublicKey()
+	if err != nil {
+		panic(Diverged{"x25519 public key: " + err.Error()})
+	}
+	return priv, []byte(p)
+}
